@@ -26,6 +26,49 @@ theorem splitDirE_none_of_gt (S : Shape K) (dir : ℕ) (u tol : K)
   unfold splitDirE
   rw [if_pos h]
 
+/-- outside the closed domain the split raises -/
+theorem splitDirD_none_of_outside (S : Shape K) (dir : ℕ) (u tol : K)
+    (h : u < (S.kv dir).getD (S.deg dir) 0 ∨ (S.kv dir).getD (S.size dir) 0 < u) : splitDirD S dir u tol = none := by
+  unfold splitDirD
+  rw [if_pos h]
+
+/-- inside it `splitDirD` is `splitDirE` -/
+theorem splitDirD_of_inside (S : Shape K) (dir : ℕ) (u tol : K)
+    (hlo : (S.kv dir).getD (S.deg dir) 0 ≤ u) (hhi : u ≤ (S.kv dir).getD (S.size dir) 0) :
+    splitDirD S dir u tol = splitDirE S dir u tol := by
+  unfold splitDirD
+  rw [if_neg]
+  intro h
+  rcases h with h | h
+  · exact absurd hlo (not_le.mpr h)
+  · exact absurd hhi (not_le.mpr h)
+
+/-- whenever the split with all exceptions answers, the parameter is strictly inside the domain, counted at most `p`
+    times, and the answer is that of `splitDirE` and of the plain `splitDir` -/
+theorem splitDirD_some (S : Shape K) (dir : ℕ) (u tol : K) (r : Shape K × Shape K)
+    (h : splitDirD S dir u tol = some r) :
+    splitDirE S dir u tol = some r ∧ splitDir S dir u tol = some r ∧
+    (S.kv dir).getD (S.deg dir) 0 < u ∧ u < (S.kv dir).getD (S.size dir) 0 ∧
+    findMultiplicity u (S.kv dir) tol ≤ S.deg dir := by
+  unfold splitDirD at h
+  by_cases c : u < (S.kv dir).getD (S.deg dir) 0 ∨ (S.kv dir).getD (S.size dir) 0 < u
+  · rw [if_pos c] at h; exact absurd h (by simp)
+  · rw [if_neg c] at h
+    have hs := splitDirE_some S dir u tol r h
+    have hm : findMultiplicity u (S.kv dir) tol ≤ S.deg dir := by
+      by_contra hc
+      rw [splitDirE_none_of_gt S dir u tol (by omega)] at h
+      exact absurd h (by simp)
+    have hne : ¬ (u = (S.kv dir).getD (S.deg dir) 0 ∨ u = (S.kv dir).getD (S.size dir) 0) := by
+      intro he
+      unfold splitDir at hs
+      simp only [] at hs
+      rw [if_pos he] at hs
+      exact absurd hs (by simp)
+    have c' := not_or.mp c
+    have hne' := not_or.mp hne
+    refine ⟨h, hs, lt_of_le_of_ne (not_lt.mp c'.1) (fun e => hne'.1 e.symm), lt_of_le_of_ne (not_lt.mp c'.2) hne'.2, hm⟩
+
 /-- whenever the version with exceptions answers, it answers what `decomposeDir` answers -/
 theorem decomposeDirE_some (dir : ℕ) (tol : K) : ∀ (fuel : ℕ) (S : Shape K) (l : List (Shape K)),
     decomposeDirE dir tol fuel S = some l → decomposeDir dir tol fuel S = l := by
